@@ -128,6 +128,16 @@ Theorem C18_degenerate_affine_modes_partial : forall M t,
      (A M t (0,0,1)) (A M t (0,0,1)) (A M t (1,0,1)) (A M t (0,1,1)) = mdet ROps M / 2.
 Proof. intros M t. exact (degenerate_affine_01 M t). Qed.
 
+(* ---- the mesh returned by resolve_degeneracy is id-sorted; an id -> index
+   dictionary taken from the source storage order does not give positions in it.
+   (Finding: FEMData.resolve_degeneracy keeps the stale dict_element_id2index, so
+   volumes queried on the returned object land on the wrong ids when the source
+   hex ids are not ascending in storage; witness ids [30; 10; 20].) *)
+Theorem C18_stale_id_index_refuted :
+  exists (old new : list Z) (e : Z),
+    NoDup old /\ Permutation old new /\ In e new /\ index_of e old <> index_of e new.
+Proof. exact stale_id_index_refuted. Qed.
+
 (* ---- make_elements_positive: _permute flips the sign and keeps the nodes *)
 Theorem C18_permute_flips : forall p0 p1 p2 p3,
   option_map (fun q => match q with
